@@ -262,6 +262,8 @@ struct LongSnapSys {
 	/// (parameters, stream length, steps after the snapshot)
 	params: Vec<(Params, u32, u32)>,
 	alphabet: Vec<In>,
+	/// inputs of the stream fed before the exploration starts (one long history, snapshots only after it)
+	pre: u32,
 }
 fn pick(t: u32, n: usize) -> usize {
 	((t as usize) * 7 + (t as usize) / 5 + (t as usize) / 64) % n
@@ -276,8 +278,16 @@ impl System for LongSnapSys {
 		let sp = spec(self.spec_name);
 		let mut v = vec![];
 		for (p, len, tail) in &self.params {
-			if let Ok(Ok(a)) = catch(|| (sp.ctor)(p, &self.alphabet[0])) {
-				v.push((LSt { a, b: None, t: 0, age: 0, len: *len, tail: *tail }, format!("{}({}) v0={}", self.spec_name, p.show(), self.alphabet[0].show())));
+			if let Ok(Ok(mut a)) = catch(|| (sp.ctor)(p, &self.alphabet[0])) {
+				let fed = catch(|| {
+					for t in 0..self.pre {
+						a.next(&self.alphabet[pick(t, self.alphabet.len())]);
+					}
+					a
+				});
+				if let Ok(a) = fed {
+					v.push((LSt { a, b: None, t: self.pre, age: 0, len: self.pre + *len, tail: *tail }, format!("{}({}) v0={} after {} inputs of the stream", self.spec_name, p.show(), self.alphabet[0].show(), self.pre)));
+				}
 			}
 		}
 		v
@@ -347,6 +357,7 @@ struct ILongSnapSys {
 	cfgs: Vec<Box<dyn IndCfg>>,
 	len: u32,
 	tail: u32,
+	pre: u32,
 }
 /// stream 0: volatile (every step a new value); stream 1: a triangle wave (period 17) whose amplitude
 /// itself swells and fades (period 113) on a slow drift - rallies, ranges and converging triangles
@@ -375,8 +386,19 @@ impl System for ILongSnapSys {
 		for (i, c) in self.cfgs.iter().enumerate() {
 			for stream in [0u8, 1] {
 				let c0 = long_candle(stream, 0, if stream == 0 { 10.0 } else { 100.0 });
-				if let Ok(Ok(a)) = catch(|| c.init(&c0)) {
-					v.push((ILSt { a, b: None, cfg: i, stream, t: 1, age: 0, prev_close: c0.close as f64 }, format!("{} {} stream={}", c.const_name(), c.to_json().unwrap_or_default(), if stream == 0 { "volatile" } else { "swelling-triangle-wave" })));
+				if let Ok(Ok(mut a)) = catch(|| c.init(&c0)) {
+					let mut prev_close = c0.close as f64;
+					let fed = catch(|| {
+						for t in 1..=self.pre {
+							let c = long_candle(stream, t, prev_close);
+							prev_close = c.close as f64;
+							a.next(&c);
+						}
+						(a, prev_close)
+					});
+					if let Ok((a, prev_close)) = fed {
+						v.push((ILSt { a, b: None, cfg: i, stream, t: 1 + self.pre, age: 0, prev_close }, format!("{} {} stream={} after {} candles", c.const_name(), c.to_json().unwrap_or_default(), if stream == 0 { "volatile" } else { "swelling-triangle-wave" }, self.pre)));
+					}
 				}
 			}
 		}
@@ -386,7 +408,7 @@ impl System for ILongSnapSys {
 		if s.b.is_some() {
 			return if s.age >= self.tail { vec![] } else { vec![(false, 0)] };
 		}
-		if s.t >= self.len { vec![(true, 1)] } else { vec![(false, 0), (true, 1)] }
+		if s.t >= self.pre + self.len { vec![(true, 1)] } else { vec![(false, 0), (true, 1)] }
 	}
 	fn show_act(&self, a: &bool) -> String {
 		if *a { "snapshot+restore".into() } else { "next-of-the-stream".into() }
@@ -638,7 +660,13 @@ fn main() {
 		}
 		let mut alphabet = inputs(sp.input);
 		alphabet.truncate(5);
-		h.go(&LongSnapSys { name: format!("{name}/snapshot-far-into-a-stream"), spec_name: name, params, alphabet }, &Limits::deviation(1, 4000).wall_secs(300), true);
+		h.go(&LongSnapSys { name: format!("{name}/snapshot-far-into-a-stream"), spec_name: name, params: params.clone(), alphabet: alphabet.clone(), pre: 0 }, &Limits::deviation(1, 4000).wall_secs(300), true);
+		// ... and around the 65 536-th step (a history of 65 520 inputs is fed first)
+		let mut late: Vec<(Params, u32, u32)> = params.into_iter().map(|(p, _, tail)| (p, 32, tail.min(40))).collect();
+		if name == "CollapseTimeframe" {
+			late.push((Params::U(70_000), 32, 4_600));
+		}
+		h.go(&LongSnapSys { name: format!("{name}/snapshot-around-step-65536"), spec_name: name, params: late, alphabet, pre: 65_520 }, &Limits::deviation(1, 6000).wall_secs(300), true);
 	}
 	for c in defaults() {
 		let name = c.const_name();
@@ -656,7 +684,9 @@ fn main() {
 				}
 			}
 		}
-		h.go(&ILongSnapSys { name: format!("{name}/snapshot-far-into-a-stream"), cfgs, len: if thorough { 700 } else { 330 }, tail: 24 }, &Limits::deviation(1, 4000).wall_secs(300), true);
+		let few: Vec<Box<dyn IndCfg>> = checks::indcheck::indicator_configs_small3(name);
+		h.go(&ILongSnapSys { name: format!("{name}/snapshot-far-into-a-stream"), cfgs, len: if thorough { 700 } else { 330 }, tail: 24, pre: 0 }, &Limits::deviation(1, 4000).wall_secs(300), true);
+		h.go(&ILongSnapSys { name: format!("{name}/snapshot-around-step-65536"), cfgs: few, len: 32, tail: 24, pre: 65_520 }, &Limits::deviation(1, 4000).wall_secs(300), true);
 	}
 	if !h.is_replay() {
 		adversarial(&mut h);
